@@ -96,7 +96,7 @@ func cliStressOnce(r *Rng, v6 bool) (desc string, fails []cliStressFail) {
 		fr := &Rng{s: seeds[callers]}
 		for k := 0; k < feedN; k++ {
 			x := fr.Range(1, pool)
-			kind := []string{"acc", "acc", "rej", "rej", "ix", "ig", "io", "ih", "ie", "ih0", "ih3", "ih5", "ihx"}[fr.Intn(13)]
+			kind := []string{"acc", "acc", "rej", "rej", "ix", "ig", "io", "ih", "ie", "ih0", "ih3", "ih5", "ihx", "ib0", "ib8"}[fr.Intn(15)]
 			in := inj{xid: x}
 			switch kind {
 			case "acc":
